@@ -11,6 +11,21 @@ CHECKS = {
   text="Exploration: every cell of the operator x ordered-type-pair x boundary-value table is executed (4 operand provenances, optimizer on and off) and compared with an independent reference interpreter (type, printed form and deep structure, or 'is an error'); random expression trees to depth 4 (quick) / 6 (thorough) over generated objects and variables are compared the same way. Finds wrong values, wrong types and missing/extra errors for the generated expressions; proves nothing beyond them.",
   note="Trusted: the reference interpreter in harness/lang (written from README + property text; cells the text leaves open are accepted either way and counted as 'unspecified'; behaviour pinned from the implementation is marked quirk and an error is accepted there). Float results are compared by printed form. Known finding C03-sqrt-fold is excluded by construction.",
   ref="DESIGN.md §3 C01"),
+ "C02": dict(
+  technique="property-based testing (rapid): random control-flow programs compared with a reference interpreter on result, host-call trace and resulting variables",
+  text="Exploration: generated programs of nested if/else-if/else, while/for, foreach over arrays, strings, hashes and ranges, switch (literal/expression/regexp/list cases, default anywhere), ternaries and returns, instrumented with trace() host calls, are run on generated objects (map, struct, pointer; optimizer on/off) and must agree with an independent reference interpreter on the result, the exact sequence of host calls and every global variable left behind.",
+  note="Trusted: reference interpreter (harness/lang); termination by construction (bounded counters) plus a model step budget; switch subjects are side-effect free (their evaluation count is unspecified). Global variables are read through the verif hook VerifGlobals.",
+  ref="DESIGN.md §3 C02"),
+ "C03": dict(
+  technique="differential property-based testing (rapid): same script prepared with and without NoOptimize, run on a sequence of objects",
+  text="Exploration: generated programs biased to what the peephole optimizer rewrites (inline integer arithmetic and comparisons around the 65534 limit, constant conditions in every construct, expression statements before loop heads, returns around jumps, user functions) are prepared twice and run on 3 objects in sequence; after every run value (type, printed form, structure) or failure, host-call sequence and global variables must be identical. Non-trivial cases are those where the hook shows that the optimizer really changed the program.",
+  note="No model involved: the oracle is the unoptimized evaluator. Runs that hit the 2 s safety deadline are inconclusive and dropped (counted). Known findings C03-sqrt-fold and C03-optimize-variable are excluded by construction (√ is never applied to a foldable integer constant, the name OPTIMIZE is never generated).",
+  ref="DESIGN.md §3 C03"),
+ "C06": dict(
+  technique="property-based testing (rapid): random programs with user functions and deliberate name clashes compared with a scope-stack reference interpreter",
+  text="Exploration: generated programs with up to 3 user functions (before/after use, recursive on a decreasing counter, value-less, wrong arity, unknown names) whose parameters, locals and loop variables are drawn from a pool that also names globals, with returns from inside foreach/while/switch at every depth, must agree with a reference interpreter that keeps an explicit scope stack: result, host-call sequence, and all globals after the run.",
+  note="Trusted: reference interpreter. A callee reading or writing a caller's local (dynamic visibility) is outside what the property fixes: such cases are detected by the model and accepted either way (counted as unspecified).",
+  ref="DESIGN.md §3 C06"),
 }
 
 def main():
